@@ -31,3 +31,19 @@ Example C11_nonvacuous :
   | Some et, Some pt => map (fun f => oget (parse_obj pt (export_obj et o)) f) ["name"; "type"; "numerator"; "denominator"; "fill_nulls_with"; "agg"; "sql"]
   | _, _ => [] end = [VStr "r"; VStr "ratio"; VStr "rev"; VStr "n"; VInt 0; VNone; VNone].
 Proof. vm_compute. reflexivity. Qed.
+
+Require V.Model.SqlValue V.Gen.SqlValue_gen V.Proofs.SqlValue_proofs.
+(* THE SQL DEFINITION SYNTAX, values: Gen/SqlValue_gen.v holds what sql_definitions._parse_scalar_literal makes of 44 scripted property values (empty, lone and repeated
+   quotes, quoted texts with doubled quotes, double-quoted texts, expressions that merely start and end with a string constant, unterminated quotes, true / false / null in
+   several spellings, integers with signs and leading zeros, decimals, near-numbers, bare expressions, texts with outer blanks), extracted from the source on every run by
+   executing the function's AST (translator/gen_sqlvalue.py, fail closed, validated against CPython).  Model/SqlValue.parse_scalar returns the same value on every row; and
+   for EVERY text s, writing s as one single-quoted literal with its quotes doubled denotes exactly s -- so a SQL expression (CASE ... 'x' ..., IN ('a', 'b')) written in a
+   MODEL / DIMENSION / METRIC / SEGMENT statement means what the same string means in Python or YAML. *)
+Theorem C11_sqlvalue_table : forallb V.Model.SqlValue.sqlvalue_row_ok V.Gen.SqlValue_gen.sqlvalue_rows = true.
+Proof. exact V.Proofs.SqlValue_proofs.sqlvalue_table_ok. Qed.
+Theorem C11_quoted_literal_roundtrip : forall s, V.Model.SqlValue.parse_scalar (V.Model.SqlValue.quote s) = V.Model.SqlValue.SStr s.
+Proof. exact V.Proofs.SqlValue_proofs.quoted_literal_roundtrip. Qed.
+Example C11_quoted_literal_nonvacuous :
+  V.Model.SqlValue.quote "status = 'done'" = "'status = ''done'''"%string /\
+  V.Model.SqlValue.parse_scalar "'pre-' || status || '-post'" = V.Model.SqlValue.SStr "pre-' || status || '-post"%string.
+Proof. vm_compute. split; reflexivity. Qed.
